@@ -282,6 +282,50 @@ func runC05(c *Ctx) {
 		}
 	}()
 	wg.Wait()
+	spreadHeavy(sh.rc)
 	Must(sh.rc.Write())
 	Must(im.Write(c.Out))
+}
+
+// spreadHeavy reorders the cases so that the megabyte histories (sessions on mirrored units over a
+// slow link, seconds each in Coq) open different shards: the shards are evaluated in parallel.
+func spreadHeavy(cf *CaseFile) {
+	per := cf.PerShard
+	var heavy, light []int
+	for i, t := range cf.Cases {
+		if strings.HasPrefix(t, "CR (RMCase") {
+			heavy = append(heavy, i)
+		} else {
+			light = append(light, i)
+		}
+	}
+	if len(heavy) == 0 || per <= 1 {
+		return
+	}
+	var order []int
+	for len(heavy) > 0 || len(light) > 0 {
+		if len(heavy) > 0 {
+			order = append(order, heavy[0])
+			heavy = heavy[1:]
+		}
+		n := per - 1
+		if len(heavy) == 0 && len(order)%per == 0 {
+			n = per
+		}
+		if n > len(light) {
+			n = len(light)
+		}
+		order = append(order, light[:n]...)
+		light = light[n:]
+		if len(light) == 0 && len(heavy) > 0 {
+			// no light cases left: the remaining heavy ones follow, padded by nothing
+			order = append(order, heavy...)
+			heavy = nil
+		}
+	}
+	cases, labels := make([]string, len(order)), make([]string, len(order))
+	for k, i := range order {
+		cases[k], labels[k] = cf.Cases[i], cf.Labels[i]
+	}
+	cf.Cases, cf.Labels = cases, labels
 }
